@@ -140,7 +140,7 @@ func VerifC09DictPattern() {
 	}
 }
 
-// verif:bound VerifC09NestedPattern 6 nested patterns (array in tuple, tuple in array, dict in tuple, array in array with rest, tuple in dict, fallback inside a nested tuple) against matching and non-matching values with symbolic numbers in [0,2]
+// verif:bound VerifC09NestedPattern 11 pattern/value pairs over 6 nested patterns (array in tuple, tuple in array, dict in tuple, array in array with rest, tuple in dict, fallback inside a nested tuple) against matching and non-matching values with symbolic numbers in [0,2]
 // verif:cover VerifC09NestedPattern match no-match
 func VerifC09NestedPattern() {
 	x, y := verifNondetIntIn(0, 2), verifNondetIntIn(0, 2)
